@@ -10,22 +10,31 @@ From PV Require Import Lib.Closure Model.C09_connect.
 Close Scope Qc_scope.
 Close Scope Q_scope.
 
+Section Proofs.
+Context {Sg N : Type} `{Countable N} `{!Naming Sg N}.
+Local Notation var := N.
+Local Notation key := (N * bool)%type.
+Local Notation cmapT := (gmap key (gset key)).
+Local Notation row := (list (var * Z)).
+Local Notation cvars := (list (Sg * kind)).
+Local Notation fclause := ((var * bool) * (var * bool) * cvars)%type.
+
 (* ------------------------------------------------------------------ *)
 (* 1. decomposition of the run                                         *)
 (* ------------------------------------------------------------------ *)
 Definition flow_pairs_vars (L R : var * bool) (vars : cvars) : list (key * key) :=
-  flat_map (fun v : positive * kind =>
+  flat_map (fun v : Sg * kind =>
               match v.2 with
-              | KFlow => [((L.1 ++ [v.1], L.2), (R.1 ++ [v.1], R.2))]
+              | KFlow => [((ext L.1 v.1, L.2), (ext R.1 v.1, R.2))]
               | _ => []
               end) vars.
 Definition flow_pairs (cs : list fclause) : list (key * key) :=
   flat_map (fun c : fclause => flow_pairs_vars c.1.1 c.1.2 c.2) cs.
 
 Definition pot_pairs_vars (L R : var * bool) (vars : cvars) : list (var * var) :=
-  flat_map (fun v : positive * kind =>
+  flat_map (fun v : Sg * kind =>
               match v.2 with
-              | KPot => [(L.1 ++ [v.1], R.1 ++ [v.1])]
+              | KPot => [(ext L.1 v.1, ext R.1 v.1)]
               | _ => []
               end) vars.
 Definition pot_pairs (cs : list fclause) : list (var * var) :=
@@ -409,3 +418,4 @@ Proof.
   rewrite <- (run_lookup_cls _ _ _ HT), <- (run_lookup_cls _ _ _ Hk).
   apply Hc. by rewrite (run_lookup_cls _ _ _ Hk).
 Qed.
+End Proofs.
